@@ -73,6 +73,7 @@ def gen_cases(rng, tier):
                          "level": rng.random()})
         cases.append({"part": "B", "N": N, "chains": chains, "bvars": bvars, "grid": grid, "constraints": cons,
                       "t0": ocpgen.rnd(rng, -1, 1, 2), "T": ocpgen.rnd(rng, 0.4, 3, 2), "refine": rng.choice([2, 3, 4, 5]),
+                      "retrans": [ocpgen.rnd(rng, 0.4, 3, 2), ocpgen.rnd(rng, -1, 1, 2)] if rng.random() < 0.4 else None,
                       "seed": rng.getrandbits(32)})
     nc = 30 if tier == "quick" else 400
     for i in range(nc):
@@ -363,6 +364,12 @@ def run_B(case):
             tt, vv = C.call("sample(der bspline)", ocp.sample, cur, grid="control", refine=r)
             outs += [ca.MX(tt), ca.MX(vv)]
             dermeta.append((s, nu))
+        # 'gist' of a concatenation of the chains' bottoms (all of degree 0, possibly from chains of different length)
+        bottoms = [s for s in sig if s["degree"] == 0]
+        n_main = len(outs)
+        if len(bottoms) >= 2:
+            _, cat_g = C.call("sample(gist, concatenation)", ocp.sample, ca.vertcat(*[s["sym"] for s in bottoms]), grid="gist")
+            outs.append(ca.MX(cat_g))
         F = ca.Function("s", [view.x, view.p], outs)
     except C.RockitRaised as e:
         res["violations"].append(C.exc_violation(ID, e, "B|%s" % C.grid_tag(case["grid"])))
@@ -419,6 +426,18 @@ def run_B(case):
             store[s["name"]] = (d, cg, vr.reshape(dim, -1))
         if [v for v in res["violations"] if v["kind"] != "sample-times"]:
             return res
+        if len(bottoms) >= 2:
+            got = vals[n_main]
+            want = np.vstack([store[s["name"]][1] for s in bottoms])
+            got = got.reshape(want.shape) if got.size == want.size else got
+            res["evals"] += 1
+            res["counters"]["gist_concatenations"] = res["counters"].get("gist_concatenations", 0) + 1
+            if got.shape != want.shape or np.max(np.abs(got - want)) > 1e-10 * (1 + np.max(np.abs(want))):
+                res["violations"].append({
+                    "kind": "gist-concatenation", "mech": "C17|B|gist-of-concatenation",
+                    "detail": "sample(vertcat(bottoms of %d chains), grid='gist') = %s, the chains' own gist coefficients %s" % (
+                        len(bottoms), C.short(np.asarray(got).reshape(-1)[:6]), C.short(want.reshape(-1)[:6]))})
+                return res
         # declared derivative relations hold identically in time
         for s in sig:
             if s["der_of"] is None:
@@ -475,6 +494,27 @@ def run_B(case):
                               "slacks unmatched (NLP has %d inequality slacks, expected %d)" % (
                                   [c["c"]["refine"] for c in cons], len(un_e), len(un_o), len(obs), len(exp))})
                 return res
+    if case.get("retrans") and not res["violations"]:
+        # the horizon is changed after the transcription: refined samples move to the new instants
+        T2, t02 = case["retrans"]
+        try:
+            C.call("set_T(transcribed)", ocp.set_T, T2)
+            C.call("set_t0(transcribed)", ocp.set_t0, t02)
+            view2 = C.call("transcribe(again)", nlp.NlpView, ocp)
+            tr2, _ = C.call("sample(control,refine)", ocp.sample, sig[0]["sym"], grid="control", refine=r)
+            F2 = ca.Function("t", [view2.x, view2.p], [ca.MX(tr2)])
+            tt2 = np.array(F2(view2.x0, view2.p0), dtype=float).reshape(-1)
+            xi2 = t02 + T2 * nrm
+            want2 = np.concatenate([np.linspace(xi2[k], xi2[k + 1], r + 1)[:-1] for k in range(N)] + [xi2[-1:]])
+            res["evals"] += 1
+            res["counters"]["retranscriptions"] = 1
+            if len(tt2) != len(want2) or np.max(np.abs(tt2 - want2)) > 1e-9 * (1 + np.max(np.abs(want2))):
+                res["violations"].append({
+                    "kind": "sample-times", "mech": "C17|B|refined-times-stale-after-horizon-edit",
+                    "detail": "after set_T(%g), set_t0(%g) on the transcribed OCP the refined sample times are %s, the refined "
+                              "control grid of the new horizon is %s" % (T2, t02, C.short(tt2[:6]), C.short(want2[:6]))})
+        except C.RockitRaised as e:
+            res["violations"].append(C.exc_violation(ID, e, "B|retranscription"))
     res["nontrivial"] = res["counters"]["spline_points"] > 0
     res["sample"] = {"N": N, "grid": case["grid"], "chains": layout, "refine": r, "T": case["T"], "t0": case["t0"]}
     return res
